@@ -2,10 +2,14 @@
 // tree-level specification vocabulary.  Trusted shapes: a field or variant that disagrees with /repo makes the
 // lifted text fail to type-check (exit 2).  The Default values are discharged against the real impls in unit
 // V-lber-struct; here they are contracts of external_body stubs.
-#[derive(PartialEq, Eq, Clone, Copy, Structural)]
-pub enum TagClass { Universal = 0, Application = 1, Context = 2, Private = 3 }
-#[derive(PartialEq, Eq, Clone, Copy, Structural)]
-pub enum TagStructure { Primitive = 0, Constructed = 1 }
+// the two header enums are the repo's own definitions (lber/src/common.rs), lifted
+//@item file=lber/src/common.rs kind=enum name=TagStructure derive="PartialEq, Eq, Clone, Copy, Structural"
+//@item file=lber/src/common.rs kind=enum name=TagClass derive="PartialEq, Eq, Clone, Copy, Structural"
+// X.690 8.1.2.2: class bits 00 universal, 01 application, 10 context-specific, 11 private; bit 6: 0 primitive, 1 constructed
+pub proof fn header_enum_discriminants_x690()
+    ensures TagClass::Universal as u8 == 0 && TagClass::Application as u8 == 1 && TagClass::Context as u8 == 2 && TagClass::Private as u8 == 3, //# C07.tag_class_numbers_x690
+            TagStructure::Primitive as u8 == 0 && TagStructure::Constructed as u8 == 1, //# C07.primitive_constructed_bit_x690
+{ }
 
 pub struct StructureTag { pub class: TagClass, pub id: u64, pub payload: PL }
 pub enum PL { P(Vec<u8>), C(Vec<StructureTag>) }
